@@ -594,6 +594,12 @@ func famGraph(g *sgen, i int) J {
 		for j, n := 0, g.r.intn(5); j < n; j++ {
 			items = append(items, pool[g.r.intn(len(pool))])
 		}
+		if g.r.chance(15) {
+			// a member whose id cannot be determined (anonymous embedded object): the whole lookup of this collection fails
+			at := g.r.intn(len(items) + 1)
+			anon := J{"type": "Note", "content": "anonymous member"}
+			items = append(items[:at], append([]interface{}{anon}, items[at:]...)...)
+		}
 		if items == nil {
 			items = []interface{}{}
 		}
